@@ -491,12 +491,35 @@ theorem integer_shift_translates (sqrt : K → K) (half : K) (n0 n1 : Int) (radi
   · unfold rectangleAt; rw [meshCoord_shift, meshCoord_shift]
   · unfold hexagonAt; rw [meshCoord_shift, meshCoord_shift]
 
+/-- `shape.spider` (one minus an offset rectangle) inherits the clauses: values in [0, 1], binary without antialiasing, and exact
+translation under integer shifts -/
+theorem spider_range_binary_shift (half sqrt2 : K) (n0 n1 : Int) (width s0 s1 ca sa : K) (aa : Bool) (i j d0 d1 : Int) :
+    (0 ≤ spiderAt half sqrt2 n0 n1 width s0 s1 ca sa aa i j ∧ spiderAt half sqrt2 n0 n1 width s0 s1 ca sa aa i j ≤ 1) ∧
+    (spiderAt half sqrt2 n0 n1 width s0 s1 ca sa false i j = 0 ∨ spiderAt half sqrt2 n0 n1 width s0 s1 ca sa false i j = 1) ∧
+    spiderAt half sqrt2 n0 n1 width (s0 + d0) (s1 + d1) ca sa aa i j = spiderAt half sqrt2 n0 n1 width s0 s1 ca sa aa (i - d0) (j - d1) := by
+  refine ⟨?_, ?_, ?_⟩
+  · unfold spiderAt; simp only
+    have h := (shape_range_01 (fun x => x) half n0 n1 0 (sqrt2 * ((max n0 n1 : Int) : K) / ((2 : Int) : K)) width 0
+      (s0 + -(sqrt2 * ((max n0 n1 : Int) : K) / ((2 : Int) : K) / ((2 : Int) : K)) * sa)
+      (s1 + sqrt2 * ((max n0 n1 : Int) : K) / ((2 : Int) : K) / ((2 : Int) : K) * ca) ca sa (fun _ => 0) (fun _ => 0) aa i j).2.1
+    constructor <;> linarith [h.1, h.2]
+  · unfold spiderAt; simp only
+    have h := (binary_without_aa (fun x => x) half n0 n1 0 (sqrt2 * ((max n0 n1 : Int) : K) / ((2 : Int) : K)) width 0
+      (s0 + -(sqrt2 * ((max n0 n1 : Int) : K) / ((2 : Int) : K) / ((2 : Int) : K)) * sa)
+      (s1 + sqrt2 * ((max n0 n1 : Int) : K) / ((2 : Int) : K) / ((2 : Int) : K) * ca) ca sa (fun _ => 0) (fun _ => 0) i j).2.1
+    rcases h with h | h <;> rw [h]
+    · right; ring
+    · left; ring
+  · unfold spiderAt; simp only
+    rw [add_right_comm s0, add_right_comm s1]
+    rw [(integer_shift_translates (fun x => x) half n0 n1 0 _ width 0 _ _ ca sa (fun _ => 0) (fun _ => 0) aa i j d0 d1).2.1]
+
 /-- the mesh index map: index `i` carries coordinate `i - ⌊n/2⌋` (so the origin sample is index `⌊n/2⌋`), and the
 half-turn about the origin sample, `i ↦ 2⌊n/2⌋ - i`, negates it -/
 theorem mesh_origin_and_half_turn (n i : Int) :
     meshCoord n (n / 2) (0 : K) = 0 ∧ meshCoord n (2 * (n / 2) - i) (0 : K) = -meshCoord n i (0 : K) := by
   refine ⟨?_, meshCoord_half_turn n i⟩
-  unfold meshCoord; simp
+  unfold meshCoord Gen.meshCoord; simp
 
 /-- circles and rectangles (any rotation) centred on the origin sample are unchanged by the half-turn about it -/
 theorem circle_rect_half_turn (sqrt : K → K) (half : K) (n0 n1 : Int) (radius width height ca sa : K) (aa : Bool) (i j : Int) :
@@ -505,10 +528,7 @@ theorem circle_rect_half_turn (sqrt : K → K) (half : K) (n0 n1 : Int) (radius 
       = rectangleAt half n0 n1 width height 0 0 ca sa aa i j := by
   refine ⟨?_, ?_⟩
   · unfold circleAt; simp only [meshCoord_half_turn, neg_mul_neg]
-  · unfold rectangleAt; simp only [meshCoord_half_turn, absK_eq_abs]
-    rw [show -meshCoord n0 i (0 : K) * -sa + -meshCoord n1 j (0 : K) * ca = -(meshCoord n0 i 0 * -sa + meshCoord n1 j 0 * ca) by ring,
-      show -meshCoord n0 i (0 : K) * ca + -meshCoord n1 j (0 : K) * sa = -(meshCoord n0 i 0 * ca + meshCoord n1 j 0 * sa) by ring,
-      abs_neg, abs_neg]
+  · unfold rectangleAt; simp only [meshCoord_half_turn, absK_eq_abs, meshRot_neg, abs_neg]
 
 /-- hexagons: the six edge normals are closed under negation (`normal (n+3) = -normal n`, true of the angles
 `n·π/3 + φ`), hence the hexagon centred on the origin sample is unchanged by the half-turn -/
@@ -544,7 +564,7 @@ theorem mirror_when_unrotated (sqrt : K → K) (half : K) (n0 n1 : Int) (radius 
     hexagonAt half inner sinT cosT n0 n1 0 0 aa (2 * (n0 / 2) - i) j = hexagonAt half inner sinT cosT n0 n1 0 0 aa i j := by
   refine ⟨?_, ?_, ?_⟩
   · unfold circleAt; simp only [meshCoord_half_turn, neg_mul_neg]
-  · unfold rectangleAt; simp only [meshCoord_half_turn, absK_eq_abs, mul_one, mul_zero, neg_zero, add_zero, zero_add, abs_neg]
+  · unfold rectangleAt; simp only [meshCoord_half_turn, absK_eq_abs, meshRot_unrotated, abs_neg]
   · unfold hexagonAt
     simp only [meshCoord_half_turn, minK_eq_min]
     obtain ⟨p0, p1, p2, p3, p4, p5⟩ := hperm
@@ -556,6 +576,24 @@ theorem mirror_when_unrotated (sqrt : K → K) (half : K) (n0 n1 : Int) (radius 
     rw [p0] at s0; rw [p1] at s1; rw [p2] at s2; rw [p3] at s3; rw [p4] at s4; rw [p5] at s5
     rw [s0, s1, s2, s3, s4, s5]
     ac_rfl
+
+/-- rotated hexagons (`θₙ = n·π/3`) are mirror symmetric about the origin row too: the mirror image of normal `n` is normal
+`(6 − n) mod 6` (`θ ↦ −θ`), i.e. the permutation 0, 5, 4, 3, 2, 1 -/
+theorem mirror_rotated_hexagon (half inner : K) (n0 n1 : Int) (sinT cosT : Nat → K)
+    (perm : Nat → Nat) (hperm : perm 0 = 0 ∧ perm 1 = 5 ∧ perm 2 = 4 ∧ perm 3 = 3 ∧ perm 4 = 2 ∧ perm 5 = 1)
+    (hs : ∀ n, n < 6 → sinT (perm n) = -sinT n) (hc : ∀ n, n < 6 → cosT (perm n) = cosT n) (aa : Bool) (i j : Int) :
+    hexagonAt half inner sinT cosT n0 n1 0 0 aa (2 * (n0 / 2) - i) j = hexagonAt half inner sinT cosT n0 n1 0 0 aa i j := by
+  unfold hexagonAt
+  simp only [meshCoord_half_turn, minK_eq_min]
+  obtain ⟨p0, p1, p2, p3, p4, p5⟩ := hperm
+  have side : ∀ n, n < 6 → hexSide half inner aa (-meshCoord n0 i (0 : K)) (meshCoord n1 j 0) (sinT (perm n)) (cosT (perm n))
+      = hexSide half inner aa (meshCoord n0 i 0) (meshCoord n1 j 0) (sinT n) (cosT n) := by
+    intro n hn; rw [hs n hn, hc n hn]; unfold hexSide; simp only [neg_mul_neg]
+  have s0 := side 0 (by omega); have s1 := side 1 (by omega); have s2 := side 2 (by omega)
+  have s3 := side 3 (by omega); have s4 := side 4 (by omega); have s5 := side 5 (by omega)
+  rw [p0] at s0; rw [p1] at s1; rw [p2] at s2; rw [p3] at s3; rw [p4] at s4; rw [p5] at s5
+  rw [s0, s1, s2, s3, s4, s5]
+  ac_rfl
 
 
 /-- KNOWN FINDING (KF-C20-hex-gap0-shared-edge), witness on the model: with `seg_gap = 0` and no antialiasing the edge test
@@ -618,6 +656,60 @@ theorem hex_clear_of_border {K : Type} [Field K] [LinearOrder K] [IsStrictOrdere
   · exact hex_border_unrotated half hh R g pad sinT cosT size k a i j hh56 hh1 hR hg hpad hk hsize (by simpa using hT) ha hb hin
   · exact hex_border_rotated half hh R g pad sinT cosT size k a i j hh56 hh1 hR hg hpad hk hsize (by simpa using hT) ha hb hin
 
+/-- **the two segment theorems over the code's own expressions.** `Gen.hexInner`, `Gen.hexSizeArg`, `Gen.hexPitch` and `Gen.hexToRC` are
+re-translated from `hex_segments` / `hex_to_xy` / `hex_to_rc` on every run and are what the driver executes; with `sqrtN 3 = 2·hh`
+(`hh = √3/2`) they are the closed forms used above (`gen_hex_forms`), so: segments at distinct cells of a gap > 0 aperture share no pixel,
+and — for `pad ≥ 2`, any `ceil` with `x ≤ ceil x` — every pixel of every segment of a k-ring aperture lies in `[1, size − 2]` for the size
+the code computes. An edit of the pitch, the size formula or the cell-to-centre map changes these definitions and breaks this theorem. -/
+theorem hex_segments_code {K : Type} [Field K] [LinearOrder K] [IsStrictOrderedRing K]
+    (ceil : K → Int) (hceil : ∀ x : K, x ≤ ((ceil x : Int) : K)) (sqrtN : ℕ → K)
+    (half hh R g : K) (pad : Nat) (sinT cosT : Nat → K) (k : Nat) (a b : HexCell) (i j : Int) (rotate : Bool)
+    (hs : sqrtN 3 = 2 * hh) (hh56 : 5 / 6 ≤ hh) (hh1 : hh ≤ 1) (hR : 0 ≤ R)
+    (hT : if rotate then
+            (sinT 0 = 0 ∧ cosT 0 = 1 ∧ sinT 1 = hh ∧ cosT 1 = 1 / 2 ∧ sinT 2 = hh ∧ cosT 2 = -(1 / 2) ∧
+             sinT 3 = 0 ∧ cosT 3 = -1 ∧ sinT 4 = -hh ∧ cosT 4 = -(1 / 2) ∧ sinT 5 = -hh ∧ cosT 5 = 1 / 2)
+          else
+            (sinT 0 = 1 / 2 ∧ cosT 0 = hh ∧ sinT 1 = 1 ∧ cosT 1 = 0 ∧ sinT 2 = 1 / 2 ∧ cosT 2 = -hh ∧
+             sinT 3 = -(1 / 2) ∧ cosT 3 = -hh ∧ sinT 4 = -1 ∧ cosT 4 = 0 ∧ sinT 5 = -(1 / 2) ∧ cosT 5 = hh)) :
+    let n := hexSegmentsSize ceil sqrtN k pad R g
+    let seg := fun (c : HexCell) => hexagonAt half (Gen.hexInner sqrtN R) sinT cosT n n
+      (Gen.hexToRC sqrtN c (Gen.hexPitch R g) rotate).1 (Gen.hexToRC sqrtN c (Gen.hexPitch R g) rotate).2 false i j
+    (0 < g → a.1 + a.2.1 + a.2.2 = 0 → b.1 + b.2.1 + b.2.2 = 0 → a ≠ b → ¬ (seg a = 1 ∧ seg b = 1)) ∧
+    (0 ≤ g → 2 ≤ pad → 1 ≤ k → a ∈ segCells k → seg a = 1 → (1 ≤ i ∧ i ≤ n - 2) ∧ (1 ≤ j ∧ j ≤ n - 2)) := by
+  intro n seg
+  have hhpos : 0 < hh := by linarith
+  have fa := gen_hex_forms sqrtN hh hs a (Gen.hexPitch R g) R g rotate k pad
+  have fb := gen_hex_forms sqrtN hh hs b (Gen.hexPitch R g) R g rotate k pad
+  have segeq : ∀ c : HexCell, seg c = hexagonAt half (R * hh) sinT cosT n n (hexToRC (2 * hh) hh (3 / 2) c (R + g / 2) rotate).1
+      (hexToRC (2 * hh) hh (3 / 2) c (R + g / 2) rotate).2 false i j := by
+    intro c
+    have fc := gen_hex_forms sqrtN hh hs c (R + g / 2) R g rotate k pad
+    simp only [seg, fc.2.2.1, fc.2.1, fc.1]
+  constructor
+  · intro hg ha hb hab
+    rw [segeq a, segeq b]
+    exact hex_disjoint_pos_gap half hh R g sinT cosT n a b i j rotate hhpos hR hg hT ha hb hab
+  · intro hg hpad hk hcell hin
+    rw [segeq a] at hin
+    refine hex_clear_of_border half hh R g (pad : K) sinT cosT n k a i j rotate hh56 hh1 hR hg (by exact_mod_cast hpad) hk ?_ hT hcell hin
+    have h2 := hceil (Gen.hexSizeArg sqrtN k pad R g)
+    have e : ((n : Int) : K) = ((ceil (Gen.hexSizeArg sqrtN k pad R g) : Int) : K) := rfl
+    rw [e]
+    rw [fa.2.2.2] at h2 ⊢
+    exact h2
+
+/-- KNOWN FINDING (KF-C20-hex-gap0-shared-edge), witness at a concrete pixel of the model: for an integer circumradius `R`, gap 0 and no
+antialiasing, the pixel `R` columns right of the centre sample (`(⌊n/2⌋, ⌊n/2⌋ + R)`, the right-hand vertex of the central hexagon) is
+drawn both by the central segment and by its neighbour at cell `(1, 0, −1)` — the two masks overlap -/
+theorem kf_hex_gap0_shared_vertex_pixel {K : Type} [Field K] [LinearOrder K] [IsStrictOrderedRing K]
+    (half hh : K) (sinT cosT : Nat → K) (n : Int) (R : ℕ) (hhpos : 0 < hh)
+    (hT : sinT 0 = 1 / 2 ∧ cosT 0 = hh ∧ sinT 1 = 1 ∧ cosT 1 = 0 ∧ sinT 2 = 1 / 2 ∧ cosT 2 = -hh ∧
+          sinT 3 = -(1 / 2) ∧ cosT 3 = -hh ∧ sinT 4 = -1 ∧ cosT 4 = 0 ∧ sinT 5 = -(1 / 2) ∧ cosT 5 = hh) :
+    hexagonAt half ((R : K) * hh) sinT cosT n n 0 0 false (n / 2) (n / 2 + R) = 1 ∧
+    hexagonAt half ((R : K) * hh) sinT cosT n n (hexToRC (2 * hh) hh (3 / 2) (1, 0, -1) ((R : K) + 0 / 2) false).1
+      (hexToRC (2 * hh) hh (3 / 2) (1, 0, -1) ((R : K) + 0 / 2) false).2 false (n / 2) (n / 2 + R) = 1 :=
+  kf_vertex_pixel half hh sinT cosT n R hhpos hT
+
 /-- the real constant: `5/6 ≤ √3/2 ≤ 1` -/
 theorem sqrt3_half_in_range : (5 : ℝ) / 6 ≤ √3 / 2 ∧ √3 / 2 ≤ 1 ∧ 0 < √3 / 2 := sqrt3_half_bounds
 
@@ -650,5 +742,69 @@ theorem hexagon_normals_mirror (n : ℕ) (hn : n < 6) :
     rw [Nat.cast_sub (by omega)]; push_cast; ring
   rw [e, Real.sin_two_pi_sub, Real.cos_two_pi_sub]; exact ⟨rfl, rfl⟩
 
+
+/-- … and, rotated (φ = 0), the hypotheses of `mirror_rotated_hexagon`: `θ_{(6−n) mod 6} ≡ −θₙ` -/
+theorem hexagon_normals_mirror_rotated (n : ℕ) (hn : n < 6) :
+    Real.sin ((((6 - n) % 6 : ℕ) : ℝ) * Real.pi / 3) = -Real.sin ((n : ℝ) * Real.pi / 3) ∧
+    Real.cos ((((6 - n) % 6 : ℕ) : ℝ) * Real.pi / 3) = Real.cos ((n : ℝ) * Real.pi / 3) := by
+  have e : ∀ k : ℕ, k ≤ 6 → ((6 - k : ℕ) : ℝ) * Real.pi / 3 = 2 * Real.pi - (k : ℝ) * Real.pi / 3 := by
+    intro k hk; rw [Nat.cast_sub hk]; push_cast; ring
+  have h : n = 0 ∨ n = 1 ∨ n = 2 ∨ n = 3 ∨ n = 4 ∨ n = 5 := by omega
+  rcases h with rfl | rfl | rfl | rfl | rfl | rfl
+  · simp
+  · rw [show (6 - 1) % 6 = 6 - 1 from rfl, e 1 (by omega), Real.sin_two_pi_sub, Real.cos_two_pi_sub]; exact ⟨rfl, rfl⟩
+  · rw [show (6 - 2) % 6 = 6 - 2 from rfl, e 2 (by omega), Real.sin_two_pi_sub, Real.cos_two_pi_sub]; exact ⟨rfl, rfl⟩
+  · have h3 : (((6 - 3) % 6 : ℕ) : ℝ) * Real.pi / 3 = Real.pi := by norm_num
+    have h3' : ((3 : ℕ) : ℝ) * Real.pi / 3 = Real.pi := by norm_num
+    rw [h3]; simp
+  · rw [show (6 - 4) % 6 = 6 - 4 from rfl, e 4 (by omega), Real.sin_two_pi_sub, Real.cos_two_pi_sub]; exact ⟨rfl, rfl⟩
+  · rw [show (6 - 5) % 6 = 6 - 5 from rfl, e 5 (by omega), Real.sin_two_pi_sub, Real.cos_two_pi_sub]; exact ⟨rfl, rfl⟩
+
+/-! ## across helpers: one centre convention -/
+
+/-- **cropping is sub-array extraction**: for a target no larger than the source, `subarray(a, (h, w))` (shift 0) succeeds and is `pad(a, (h, w))` -/
+theorem subarray_eq_pad_crop [Zero K] (a : Arr K) (h w : Int) (hh : 0 < h) (hw : 0 < w) (h0 : h ≤ a.s0) (h1 : w ≤ a.s1) :
+    ∃ r, subarray a h w 0 0 = .ok r ∧ r.s0 = h ∧ r.s1 = w ∧
+      ∀ i j, 0 ≤ i → i < h → 0 ≤ j → j < w → r.get i j = (pad2 a h w).get i j := by
+  obtain ⟨r, hr⟩ := (subarray_refuses_iff a h w 0 0 hh hw).2 ⟨fun i a0 a1 => by omega, fun j a0 a1 => by omega⟩
+  obtain ⟨e0, e1, hget⟩ := subarray_indices a r h w 0 0 hr
+  refine ⟨r, hr, e0, e1, ?_⟩
+  intro i j i0 i1 j0 j1
+  obtain ⟨g, b0, b1, b2, b3⟩ := hget i j i0 i1 j0 j1
+  rw [g, pad_keeps_origin a h w i j (by omega) (by omega) ⟨i0, i1⟩ ⟨j0, j1⟩]
+  unfold Arr.centred
+  have k0 : inWin 0 a.s0 (i - h / 2 + a.s0 / 2) = true := (inWin_iff ..).2 (by omega)
+  have k1 : inWin 0 a.s1 (j - w / 2 + a.s1 / 2) = true := (inWin_iff ..).2 (by omega)
+  simp only [k0, k1, Bool.and_self, if_true]
+  congr 1 <;> omega
+
+section
+variable [Field K] [LinearOrder K] [IsStrictOrderedRing K]
+
+/-- **drawing and padding commute** (the shapes and `pad` share the centre convention): a circle / rectangle / hexagon drawn on an
+`n0 × n1` array and then padded or cropped to `S0 × S1` equals, wherever `pad` copies a sample, the same shape drawn directly on
+`S0 × S1` -/
+theorem shape_pad_commute (sqrt : K → K) (half : K) (n0 n1 S0 S1 : Int) (radius width height inner s0 s1 ca sa : K)
+    (sinT cosT : Nat → K) (aa : Bool) (i j : Int) (h0 : 0 ≤ n0) (h1 : 0 ≤ n1) (hi : 0 ≤ i ∧ i < S0) (hj : 0 ≤ j ∧ j < S1)
+    (hin : 0 ≤ i - S0 / 2 + n0 / 2 ∧ i - S0 / 2 + n0 / 2 < n0 ∧ 0 ≤ j - S1 / 2 + n1 / 2 ∧ j - S1 / 2 + n1 / 2 < n1) :
+    (pad2 ⟨n0, n1, fun i j => circleAt sqrt half n0 n1 radius s0 s1 aa i j⟩ S0 S1).get i j = circleAt sqrt half S0 S1 radius s0 s1 aa i j ∧
+    (pad2 ⟨n0, n1, fun i j => rectangleAt half n0 n1 width height s0 s1 ca sa aa i j⟩ S0 S1).get i j
+      = rectangleAt half S0 S1 width height s0 s1 ca sa aa i j ∧
+    (pad2 ⟨n0, n1, fun i j => hexagonAt half inner sinT cosT n0 n1 s0 s1 aa i j⟩ S0 S1).get i j
+      = hexagonAt half inner sinT cosT S0 S1 s0 s1 aa i j := by
+  have k0 : inWin 0 n0 (i - S0 / 2 + n0 / 2) = true := (inWin_iff ..).2 ⟨hin.1, hin.2.1⟩
+  have k1 : inWin 0 n1 (j - S1 / 2 + n1 / 2) = true := (inWin_iff ..).2 ⟨hin.2.2.1, hin.2.2.2⟩
+  have m0 : ∀ s : K, meshCoord n0 (i - S0 / 2 + n0 / 2) s = meshCoord S0 i s := by
+    intro s; have := meshCoord_recentre n0 S0 (i - S0 / 2) s; rw [this]; congr 1; omega
+  have m1 : ∀ s : K, meshCoord n1 (j - S1 / 2 + n1 / 2) s = meshCoord S1 j s := by
+    intro s; have := meshCoord_recentre n1 S1 (j - S1 / 2) s; rw [this]; congr 1; omega
+  refine ⟨?_, ?_, ?_⟩
+  · rw [pad_keeps_origin _ S0 S1 i j h0 h1 hi hj]; unfold Arr.centred
+    simp only [k0, k1, Bool.and_self, if_true]; unfold circleAt; simp only [m0, m1]
+  · rw [pad_keeps_origin _ S0 S1 i j h0 h1 hi hj]; unfold Arr.centred
+    simp only [k0, k1, Bool.and_self, if_true]; unfold rectangleAt; simp only [m0, m1]
+  · rw [pad_keeps_origin _ S0 S1 i j h0 h1 hi hj]; unfold Arr.centred
+    simp only [k0, k1, Bool.and_self, if_true]; unfold hexagonAt; simp only [m0, m1]
+end
 
 end Lentil.C20
